@@ -23,12 +23,13 @@ const SLACK_MS: u64 = 2000;
 
 fn loopback(ipv: u64) -> IpAddr { if ipv == 6 { "::1".parse().unwrap() } else { "127.0.0.1".parse().unwrap() } }
 
-fn settings(r: usize) -> Option<TimeoutSettings> {
-    Some(TimeoutSettings::new(Some(Duration::from_millis(READ_MS)), None, Some(Duration::from_millis(T_MS)), r).unwrap())
+fn settings(r: usize, tc: &str) -> Option<TimeoutSettings> {
+    let write = if tc == "rw" { Some(Duration::from_millis(T_MS + 50)) } else { None };
+    Some(TimeoutSettings::new(Some(Duration::from_millis(READ_MS)), write, Some(Duration::from_millis(T_MS)), r).unwrap())
 }
 
-fn call_real(p: &str, a: &SocketAddr, r: usize) -> Result<Value, String> {
-    let t = settings(r);
+fn call_real(p: &str, a: &SocketAddr, r: usize, tc: &str) -> Result<Value, String> {
+    let t = settings(r, tc);
     let ip = a.ip();
     let port = Some(a.port());
     fn j<T: serde::Serialize>(r: gamedig::GDResult<T>) -> Result<Value, String> {
@@ -59,6 +60,7 @@ fn call_real(p: &str, a: &SocketAddr, r: usize) -> Result<Value, String> {
         "savage2" => j(savage2::query_with_timeout(&ip, port, t)),
         "java" => j(minecraft::protocol::query_java(a, t, None)),
         "legacy14" => j(minecraft::protocol::query_legacy_specific(minecraft::LegacyGroup::V1_4, a, t)),
+        "eco" => j(gamedig::games::eco::query_with_timeout(&ip, port, &t)),
         x => panic!("c12 proto {x}"),
     }
 }
@@ -77,6 +79,7 @@ fn run_real(c: &Value, batches: &[Vec<Vec<u8>>]) -> Result<(u64, Result<Value, S
     let answered = c["answered"].as_u64().unwrap() as usize;
     let mode = c["mode"].as_str().unwrap().to_string();
     let r = c["r"].as_u64().unwrap() as usize;
+    let tc = c["tc"].as_str().unwrap_or("r").to_string();
     let stop = Arc::new(AtomicBool::new(false));
     let seen: Arc<Mutex<Vec<Vec<u8>>>> = Arc::new(Mutex::new(Vec::new()));
     let (addr, server): (SocketAddr, Option<std::thread::JoinHandle<()>>) = if mode == "silent" {
@@ -140,7 +143,7 @@ fn run_real(c: &Value, batches: &[Vec<Vec<u8>>]) -> Result<(u64, Result<Value, S
     let p2 = p.clone();
     std::thread::spawn(move || {
         let t0 = Instant::now();
-        let res = std::panic::catch_unwind(|| call_real(&p2, &addr, r));
+        let res = std::panic::catch_unwind(|| call_real(&p2, &addr, r, &tc));
         let _ = tx.send((t0.elapsed().as_millis() as u64, res));
     });
     let got = rx.recv_timeout(Duration::from_millis(bound_ms + 5000));
@@ -165,16 +168,17 @@ pub fn replay(fctx: &fuzz::Ctx, cases: &[Value], seed: u64, rep: &mut Report) {
         c["__b"] = line["b"].clone();
         c["__class"] = line["class"].clone();
         let p = c["p"].as_str().unwrap().to_string();
-        let base = fuzz::base_for(&mut rng, fctx, &entry_of(&p));
         // plain single-datagram replies only (no challenge / split), so that `answered` counts request units
-        let batches: Vec<Vec<Vec<u8>>> = if p == "valve" {
+        let batches: Vec<Vec<Vec<u8>>> = if p == "eco" {
+            Vec::new() // never answered (answered = 0): the server refuses, stalls or closes
+        } else if p == "valve" {
             let engine = json!({"t":"source_none"});
             ["info", "players", "rules"]
                 .iter()
                 .map(|s| vec![crate::valve::build_section(&mut rng, &fctx.v, s, &engine, 440, None, None).0])
                 .collect()
         } else {
-            base.conns[0].1.clone()
+            fuzz::base_for(&mut rng, fctx, &entry_of(&p)).conns[0].1.clone()
         };
         prepared.push((c, batches));
     }
@@ -211,7 +215,7 @@ pub fn replay(fctx: &fuzz::Ctx, cases: &[Value], seed: u64, rep: &mut Report) {
         };
         rep.sample(&json!({"case": c, "elapsed_ms": ms, "bound_ms": bound_ms, "outcome": outcome.as_ref().map(|_| "ok").unwrap_or_else(|e| e.as_str())}));
         let case = json!({"case": c, "elapsed_ms": ms, "bound_ms": bound_ms});
-        let fam = format!("{p}/{}/ipv{}", c["mode"].as_str().unwrap(), c["ipv"]);
+        let fam = format!("{p}/{}/ipv{}/timeouts:{}", c["mode"].as_str().unwrap(), c["ipv"], c["tc"].as_str().unwrap_or("r"));
         match &outcome {
             Err(e) if e == "BLOCKS" => {
                 rep.violation("C12", &format!("{fam}: the query blocks (no return within the bound + 5 s)"), json!({"kind":"real-socket","case":case}));
@@ -229,7 +233,8 @@ pub fn replay(fctx: &fuzz::Ctx, cases: &[Value], seed: u64, rep: &mut Report) {
         let ok = match (class, &outcome) {
             ("timeout", Err(k)) => k == "PacketReceive" || k == "PacketSend",
             ("connect", Err(k)) => k == "SocketConnect",
-            ("anyerror", Err(_)) => true,
+            // an error of the transport, not a rejection of the caller's input before anything was tried
+            ("anyerror", Err(k)) => k != "InvalidInput",
             ("ok-or-timeout", Ok(_)) => true,
             ("ok-or-timeout", Err(k)) => k == "PacketReceive" || k == "PacketSend",
             _ => false,
@@ -308,7 +313,7 @@ fn fidelity(rep: &mut Report) {
                 let mut msg = (n as u32).to_le_bytes().to_vec();
                 msg.extend((0 .. (n % 97)).map(|i| i as u8)); // requests of different lengths too
                 let r = std::panic::catch_unwind(|| -> Result<Vec<u8>, String> {
-                    let mut sock = UdpSocket::new(&addr, &settings(0)).map_err(|e| format!("{:?}", e.kind))?;
+                    let mut sock = UdpSocket::new(&addr, &settings(0, "r")).map_err(|e| format!("{:?}", e.kind))?;
                     sock.send(&msg).map_err(|e| format!("send {:?}", e.kind))?;
                     sock.receive(want).map_err(|e| format!("receive {:?}", e.kind))
                 });
@@ -352,7 +357,7 @@ fn fidelity(rep: &mut Report) {
                 b[.. k].to_vec()
             });
             let r = std::panic::catch_unwind(|| -> Result<Vec<u8>, String> {
-                let mut sock = TcpSocket::new(&taddr, &settings(0)).map_err(|e| format!("{:?}", e.kind))?;
+                let mut sock = TcpSocket::new(&taddr, &settings(0, "r")).map_err(|e| format!("{:?}", e.kind))?;
                 sock.send(b"hello peer").map_err(|e| format!("send {:?}", e.kind))?;
                 sock.receive(None).map_err(|e| format!("receive {:?}", e.kind))
             });
